@@ -38,7 +38,7 @@ from collections import Counter
 
 import deal
 
-from comb_spec_searcher import CombinatorialSpecification
+from comb_spec_searcher import CombinatorialSpecification, DisjointUnionStrategy, StrategyPack
 from comb_spec_searcher.strategies.constructor import CartesianProduct, DisjointUnion
 from comb_spec_searcher.strategies.rule import (
     EquivalencePathRule,
@@ -152,11 +152,23 @@ EXTRA_STARTS = [
 # --------------------------------------------------------------------------------------------------------------
 
 
+def family_starts(tier, seed):
+    starts = list(START_CLASSES(tier, seed))
+    seen = set(starts)
+    for prefix, patts, alphabet, stats in EXTRA_STARTS:
+        c = Av(prefix, patts, alphabet, False, stats)
+        if c not in seen:
+            seen.add(c)
+            starts.append(c)
+    return starts
+
+
 def family_jobs(tier, seed):
+    """(start class, pack, rule database) over the shared universe plus the local packs and start classes."""
     jobs = []
-    for start in START_CLASSES(tier, seed):
-        for pack in PACKS:
-            if not pack_applicable(pack, start):
+    for start in family_starts(tier, seed):
+        for pack in ALL_PACKS:
+            if pack in PACKS and not pack_applicable(pack, start):
                 continue
             for db in RULEDBS:
                 jobs.append({"start": repr(start), "pack": pack, "db": db})
@@ -165,7 +177,7 @@ def family_jobs(tier, seed):
 
 def build_spec(job):
     start = class_from_repr(job["start"])
-    spec = find_spec(start, PACKS[job["pack"]](), RULEDBS[job["db"]](), max_expansion_time=20)
+    spec = find_spec(start, ALL_PACKS[job["pack"]](), RULEDBS[job["db"]](), max_expansion_time=20)
     return start, spec
 
 
@@ -328,6 +340,40 @@ def _viol(job, extra):
     return v
 
 
+def check_one_form(job, form, rule, refuses, nmax, out):
+    """Round trip of every object of the form's parent up to size nmax.  Returns False after the first violation."""
+    parent = rule.comb_class
+    for n in range(nmax + 1):
+        for word in brute_objects(parent, n):
+            obj = Word(word)
+            extra = {"rule_parent": repr(parent), "form": form, "obj": word}
+            out["evals"] += 1
+            out["forms"][form] += 1
+            _LAST.clear()
+            if refuses:
+                COUNTS["reverse-map-refusal"] += 1
+                try:
+                    res = rule.forward_map(obj)
+                except NotImplementedError:
+                    continue
+                except Exception as e:  # pylint: disable=broad-except
+                    res = f"{type(e).__name__}: {e}"
+                _note("reverse-map-refusal", f"forward_map of a non-equivalence reverse rule gave {res!r}")
+                out["viols"].append(_viol(job, extra))
+                return False
+            try:
+                parts = forward(form, rule, obj)
+                backward(form, rule, parts, obj)
+            except deal.ContractError:
+                out["viols"].append(_viol(job, extra))
+                return False
+            except Exception as e:  # pylint: disable=broad-except
+                _note("map-exception", f"{form}: {type(e).__name__}: {e}")
+                out["viols"].append(_viol(job, extra))
+                return False
+    return True
+
+
 def check_forms(job, spec, nmax, out):
     seen = set()
     for top in list(spec):
@@ -336,38 +382,7 @@ def check_forms(job, spec, nmax, out):
             if key in seen:
                 continue
             seen.add(key)
-            parent = rule.comb_class
-            for n in range(nmax + 1):
-                for word in brute_objects(parent, n):
-                    obj = Word(word)
-                    extra = {"rule_parent": repr(parent), "form": form, "obj": word}
-                    out["evals"] += 1
-                    out["forms"][form] += 1
-                    _LAST.clear()
-                    if refuses:
-                        COUNTS["reverse-map-refusal"] += 1
-                        try:
-                            res = rule.forward_map(obj)
-                        except NotImplementedError:
-                            continue
-                        except Exception as e:  # pylint: disable=broad-except
-                            res = f"{type(e).__name__}: {e}"
-                        _note("reverse-map-refusal", f"forward_map of a non-equivalence reverse rule gave {res!r}")
-                        out["viols"].append(_viol(job, extra))
-                        break
-                    try:
-                        parts = forward(form, rule, obj)
-                        backward(form, rule, parts, obj)
-                    except deal.ContractError:
-                        out["viols"].append(_viol(job, extra))
-                        break
-                    except Exception as e:  # pylint: disable=broad-except
-                        _note("map-exception", f"{form}: {type(e).__name__}: {e}")
-                        out["viols"].append(_viol(job, extra))
-                        break
-                else:
-                    continue
-                break
+            check_one_form(job, form, rule, refuses, nmax, out)
 
 
 def check_generation(job, start, spec, nmax, out):
@@ -386,11 +401,69 @@ def check_generation(job, start, spec, nmax, out):
                 return
             if objs:
                 out["nontrivial_gen"] += 1
-            if objs and n >= 2 and len(out["samples"]) < 1:
+            if objs and n >= 3 and len(objs) >= 2 and len(out["samples"]) < 1:
                 out["samples"].append(dict(job, n=n, params=params, generated=sorted(map(str, objs))[:6]))
 
 
+# ---- chains of single-child equivalences assembled by hand (composition order matters) ---------------------------
+
+
+def CHAIN_STRATEGIES():
+    return [SwapSymmetry(), FirstLetterToA(), RemoveRedundantPatterns(), DropZeroStats(), MergeDuplicateStats(),
+            ExpansionReversed(), ExpansionStrategy(), ExpansionZeroMerge()]
+
+
+def _equivalence_steps(cls):
+    """Single-child equivalence rules starting at cls, as the path members the library would use."""
+    steps = []
+    for idx, strat in enumerate(CHAIN_STRATEGIES()):
+        if strat.decomposition_function(cls) is None:
+            continue
+        rule = strat(cls)
+        if not rule.is_equivalence():
+            continue
+        steps.append((idx, rule if len(rule.children) == 1 else rule.to_equivalence_rule()))
+    return steps
+
+
+def chain_jobs(tier, seed):
+    starts = [c for c in family_starts(tier, seed)]
+    classes = closure(starts, [ExpansionStrategy(), RemoveFrontOfPrefix(), SwapSymmetry()],
+                      limit=400 if tier == "quick" else 1500)
+    return [{"chain": repr(c)} for c in classes if not c.is_empty() and not c.just_prefix]
+
+
+def run_chain_job(job, nmax):
+    silence()
+    out = {"viols": [], "evals": 0, "forms": Counter(), "nontrivial_gen": 0, "samples": [], "key": None,
+           "found": False, "generation": False, "chains": 0}
+    cls = class_from_repr(job["chain"])
+    for i1, e1 in _equivalence_steps(cls):
+        for i2, e2 in _equivalence_steps(e1.children[0]):
+            forms = [("chain[e1,e2]", [e1, e2])]
+            try:
+                r1, r2 = _reverse_member(e1), _reverse_member(e2)
+                if r1.is_equivalence() and r2.is_equivalence():
+                    forms.append(("chain[rev e2,rev e1]", [r2, r1]))
+                    forms.append(("chain[e1,e2,rev e2]", [e1, e2, r2]))
+                    forms.append(("chain[e1,e2,rev e2,rev e1]", [e1, e2, r2, r1]))
+            except (AssertionError, NotImplementedError):
+                pass
+            for form, members in forms:
+                out["chains"] += 1
+                try:
+                    path = EquivalencePathRule(members)
+                except Exception as e:  # pylint: disable=broad-except
+                    _note("path-construction", f"{form}: {type(e).__name__}: {e}")
+                    out["viols"].append(_viol(job, {"s1": i1, "s2": i2, "form": form}))
+                    continue
+                check_one_form(dict(job, s1=i1, s2=i2), form, path, False, nmax, out)
+    return out
+
+
 def run_job(job, nmax):
+    if "chain" in job:
+        return run_chain_job(job, nmax)
     silence()
     out = {"viols": [], "evals": 0, "forms": Counter(), "nontrivial_gen": 0, "samples": [], "key": None,
            "found": False, "generation": False}
@@ -435,12 +508,13 @@ def _dedupe(viols):
 def run(tier, seed):
     nmax = 5 if tier == "quick" else 6
     jobs = family_jobs(tier, seed)
+    cjobs = chain_jobs(tier, seed)
     ctx = multiprocessing.get_context("fork")
     with ctx.Pool(NPROC) as pool:
-        results = pool.map(_worker, [(j, nmax) for j in jobs], chunksize=4)
+        results = pool.map(_worker, [(j, nmax) for j in jobs + cjobs], chunksize=4)
     counts, forms = Counter(), Counter()
     viols, samples = [], []
-    evals = found = gen = 0
+    evals = found = gen = chains = 0
     distinct = {}
     search_exc = 0
     for r in results:
@@ -450,31 +524,39 @@ def run(tier, seed):
         evals += r["evals"]
         found += r["found"]
         gen += r["generation"]
+        chains += r.get("chains", 0)
         search_exc += "search_exception" in r
         samples.extend(r["samples"])
         if r["key"] is not None and r["key"] not in distinct:
             distinct[r["key"]] = r["nontrivial_gen"] + sum(r["forms"].values())
-    nstarts = len(START_CLASSES(tier, seed))
+        elif r["key"] is None:
+            distinct[len(distinct)] = sum(r["forms"].values())
+    nstarts = len(family_starts(tier, seed))
+    step = max(1, len(samples) // 6)
     return {
-        "bound": (f"{nstarts} start classes x {len(PACKS)} packs x {len(RULEDBS)} rule databases = {len(jobs)} searches "
-                  f"({found} specifications, {len(distinct)} distinct, {gen} supporting generation, {search_exc} search "
-                  f"errors skipped); generation for all n <= {nmax} and ALL parameter vectors of possible_parameters(n); "
-                  f"maps of every derived rule form on all objects of the form's parent of size <= {nmax}"),
+        "bound": (f"{nstarts} start classes x {len(ALL_PACKS)} packs x {len(RULEDBS)} rule databases = {len(jobs)} "
+                  f"searches ({found} specifications, {gen} supporting generation, {search_exc} search errors skipped); "
+                  f"generation for all n <= {nmax} and ALL parameter vectors of possible_parameters(n); maps of every "
+                  f"derived rule form on all objects of the form's parent of size <= {nmax}; {chains} hand-assembled "
+                  f"equivalence paths of two single-child equivalences (and their reversals) over {len(cjobs)} classes"),
         "evaluations": evals,
         "distinct_nontrivial": sum(distinct.values()),
         "rule": ("one evaluation = one (specification, n, parameters) generation or one (rule form, object) map round "
-                 "trip; distinct = counted once per distinct specification (sha1 of its JSON); non-trivial = generation "
-                 "with at least one object, every map case"),
+                 "trip; distinct = counted once per distinct specification (sha1 of its JSON) / per chain class; "
+                 "non-trivial = generation with at least one object, every map case"),
         "exhaustive": tier == "quick",
         "contracts_evaluated": dict(counts),
         "forms": dict(forms),
-        "samples": samples[:3] + samples[-3:],
+        "samples": samples[::step][:6],
         "violations": _dedupe(viols),
     }
 
 
 def replay(violation):
     w = violation["witness"]
+    if "chain" in w:
+        out = run_chain_job({"chain": w["chain"]}, 6)
+        return any(v["check"] == violation["check"] for v in out["viols"])
     job = {k: w[k] for k in ("start", "pack", "db")}
     for _ in range(3):  # the search is time-sliced; give it three chances to find the same specification
         COUNTS.clear()
